@@ -12,7 +12,7 @@ installs the source-only importer); nothing in /repo is changed.  While the suit
         set_error_serializer                                            assembly order, configuration version
 
 and writes one JSON line per exchange (kind "x") and per distinct app configuration (kind "app",
-obtained with falcon.inspect.inspect_app, cached per app object and configuration version) to the
+obtained with the parts of falcon.inspect.inspect_app, cached per app object and configuration version) to the
 file named by $SUITE_RECORD_FILE (O_APPEND, one write per line, shared by the xdist workers).
 
 The recorder decides nothing.  It copies what passes through, *typed* (so that the judge side can
@@ -43,6 +43,7 @@ _PENDING = {}       # id(rec) -> rec: exchanges whose WSGI iterable has not been
 _SEQ = [0]
 _INSTALLED = [False]
 _UNSET = [None]     # falcon.response._UNSET
+_RENDERERS = []     # falcon's own render_body functions
 
 
 # ------------------------------------------------------------------------------------------------
@@ -151,23 +152,33 @@ def _bump(app):
 def _inspect(app, slot):
     import falcon.inspect as fi
     cfg = {'asgi': bool(getattr(app, '_ASGI', False)), 'app_class': _tname(app)}
+    # the parts of inspect_app(app), one by one, so that a part inspect cannot describe does not hide the others
     try:
-        info = fi.inspect_app(app)
         cfg['routes'] = [{'path': r.path, 'cls': r.class_name,
                           'methods': [[m.method, m.function_name, bool(m.internal), m.suffix,
                                        os.path.basename(str(m.source_info).rsplit(':', 1)[0])] for m in r.methods]}
-                         for r in info.routes]
-        cfg['sinks'] = [{'prefix': s.prefix, 'name': s.name} for s in info.sinks]
+                         for r in fi.inspect_routes(app)]
+    except Exception as ex:      # e.g. a custom router inspect does not know
+        cfg['inspect_error'] = '%s: %s' % (type(ex).__name__, str(ex)[:200])
+    try:
+        cfg['sinks'] = [{'prefix': s.prefix, 'name': s.name} for s in fi.inspect_sinks(app)]
         cfg['statics'] = [{'prefix': s.prefix, 'directory': s.directory, 'fallback': s.fallback_filename}
-                          for s in info.static_routes]
-        mw = info.middleware
+                          for s in fi.inspect_static_routes(app)]
+        cfg['eh'] = [[e.error, e.name, bool(e.internal)] for e in fi.inspect_error_handlers(app)]
+    except Exception as ex:      # noqa
+        cfg['inspect_error2'] = '%s: %s' % (type(ex).__name__, str(ex)[:200])
+    try:
+        mw = fi.inspect_middleware(app)
         cfg['mw'] = {'independent': bool(mw.independent),
                      'classes': [[c.name, [m.function_name for m in c.methods]] for c in mw.middleware_classes],
                      'tree': [len(mw.middleware_tree.request), len(mw.middleware_tree.resource),
                               len(mw.middleware_tree.response)]}
-        cfg['eh'] = [[e.error, e.name, bool(e.internal)] for e in info.error_handlers]
-    except Exception as ex:      # e.g. a custom router inspect_app does not know
-        cfg['inspect_error'] = '%s: %s' % (type(ex).__name__, str(ex)[:200])
+    except Exception as ex:      # e.g. middleware given as a class with plain functions
+        cfg['mw_error'] = '%s: %s' % (type(ex).__name__, str(ex)[:200])
+        try:
+            cfg['mw_count'] = len(app._unprepared_middleware)
+        except Exception:     # noqa
+            pass
     # what inspect_app does not tell: the flag, the classes in use, the order of the assembly calls
     try:
         cfg['sbs'] = bool(app._sink_before_static_route)
@@ -175,6 +186,8 @@ def _inspect(app, slot):
         cfg['req_type'] = '%s.%s' % (app._request_type.__module__, app._request_type.__qualname__)
         cfg['resp_type'] = '%s.%s' % (app._response_type.__module__, app._response_type.__qualname__)
         cfg['cors'] = bool(app._cors_enable)
+        import falcon.constants as fc
+        cfg['methods'] = sorted(fc.COMBINED_METHODS)
         cfg['serializer'] = getattr(app._serialize_error, '__module__', '?') + '.' + \
             getattr(app._serialize_error, '__name__', '?')
         cfg['asm'] = list(slot['asm'])
@@ -473,6 +486,7 @@ def _resp_state(resp):
     """the response object as the application left it (attribute reads only)"""
     st = {'cls': _tname(resp)}
     try:
+        st['own_render'] = getattr(type(resp), 'render_body', None) not in _RENDERERS
         st['status'] = enc(resp.status)
         st['headers'] = [[enc(k), enc(v)] for k, v in resp._headers.items()]
         st['extra'] = [enc(i) for i in (resp._extra_headers or ())]
@@ -615,6 +629,7 @@ def install():
     import falcon.asgi.response
     import falcon.response
     _UNSET[0] = falcon.response._UNSET
+    _RENDERERS[:] = [falcon.response.Response.render_body, falcon.asgi.response.Response.render_body]
     _FD[0] = os.open(path, os.O_WRONLY | os.O_APPEND | os.O_CREAT, 0o644)
     A, AA = falcon.app.App, falcon.asgi.app.App
     A.__call__ = _make_wsgi_call(A.__call__)
